@@ -164,6 +164,10 @@ class _Included:
         return None
 
     def require_min(self, what, found, minimum):
+        if self._only is not None:
+            # a partial include: the floor belongs to rules that are not taken over (the
+            # owner's own check keeps it)
+            return None
         return self._ctx.require_min(f"[{self._src}] {what}", found, minimum)
 
     def ob(self, rule, construct, what, ok, *args, **kw):
